@@ -310,7 +310,12 @@ def cfg_population(tier, seed):
                     preds += [q for q in src if q not in preds]
             if preds:
                 cfg["alt"][str(j)] = preds
-        if not (cfg["t"] or cfg["nt"] or cfg["alt"]):
+        if rng.random() < 0.4 and len(cg["ts"]) <= 6:
+            # one terminal with two conversions under complementary predicates (different token kinds)
+            t = rng.choice([x for x in cg["ts"] if x not in cfg["t"]] or cg["ts"][:1])
+            if t not in cfg["t"]:
+                cg["conv2"] = {t: {"pred": rand_pred(rng), "kind": 7}}
+        if not (cfg["t"] or cfg["nt"] or cfg["alt"] or cg.get("conv2")):
             continue
         cg["cfg"] = cfg
         for v in range(8):
